@@ -157,6 +157,17 @@ def h_single(ctx):
             buckets.add(b)
             vs += v1
             nt.append((name, repr(v), repr(sorted(opt.items(), key=str)), now, leeway, present))
+            if isinstance(opt.get("values"), list):
+                # the requested values in another container: no less a request
+                for cont in (tuple,):
+                    try:
+                        alt = {**opt, "values": cont(opt["values"])}
+                    except TypeError:
+                        continue
+                    b, v1, ok = evaluate({name: copy.deepcopy(v)} if present else {"other": 1}, {name: alt}, now, leeway, default_now)
+                    n += 1
+                    buckets.add(b)
+                    vs += [dict(x, fingerprint=x["fingerprint"] + f" [values given as {cont.__name__}]") for x in v1]
     # no request at all: claims without a request or built-in rule are ignored
     b, v1, ok = evaluate({name: copy.deepcopy(v)}, {}, now, leeway, default_now)
     vs += v1
@@ -251,10 +262,13 @@ class RegistryHistories:
         for o in ("iss", "exp-essential", "none"):
             self.MENU += [("kept", o, c) for c in ("iss-good", "nothing", "iss-evil", "fresh", "expired", "nbf-in-future", "iss-blank")]
             self.MENU += [("kept:advance-clock", o, "+200s"), ("kept:set-leeway", o, "150s")]
+            # one claims object the caller holds (token.claims), validated, edited in place, validated again
+            self.MENU += [("kept:validate-the-callers-claims-object", o, "-"), ("kept:callers-claims-object-edited", o, "exp in the past"),
+                          ("kept:callers-claims-object-edited", o, "iss replaced"), ("kept:callers-claims-object-edited", o, "iss removed")]
         self._base = {}
 
     def make(self):
-        return {"n": 0, "kept": {}, "clock": {}, "leeway": {}}
+        return {"n": 0, "kept": {}, "clock": {}, "leeway": {}, "claims": {}}
 
     def apply(self, st, op):
         from joserfc.jwt import JWTClaimsRegistry
@@ -274,6 +288,22 @@ class RegistryHistories:
                 st["leeway"][o] = 150
                 reg.leeway = 150
                 return ("leeway", 150)
+            if "callers-claims-object" in cls:
+                obj = st["claims"].setdefault(o, {"iss": "https://good.example", "sub": "u", "exp": NOW + 100})
+                if cls.endswith("edited"):
+                    # the caller edits its object in place and has it validated again
+                    if c == "exp in the past":
+                        obj["exp"] = NOW - 1000
+                    elif c == "iss replaced":
+                        obj["iss"] = "https://evil.test"
+                    else:
+                        obj.pop("iss", None)
+                before = copy.deepcopy(obj)
+                r = call(lambda: reg.validate(obj))
+                obs = ("accepted",) if r.ok else ("rejected", type(r.exc).__name__, str(r.exc)[:60])
+                if obj != before:
+                    obs += ("claims-modified",)
+                return obs + (("at", st["clock"][o], st["leeway"][o]), ("claims", before))
             claims = copy.deepcopy(HIST_CLAIMS[c])
             r = call(lambda: reg.validate(claims))
             obs = ("accepted",) if r.ok else ("rejected", type(r.exc).__name__, str(r.exc)[:60])
@@ -310,7 +340,7 @@ class RegistryHistories:
 
     def canon(self, st):
         from ..history import canon_state
-        return canon_state(st["kept"], prefix="joserfc.rfc7519")
+        return canon_state(st["kept"], st["claims"], prefix="joserfc.rfc7519")
 
     def bucket(self, obs):
         return ":".join(str(x) for x in obs[:2])
@@ -325,10 +355,14 @@ class RegistryHistories:
     def check(self, hist, op, obs, st):
         vs = []
         if op[0].startswith("kept"):
-            if op[0] != "kept" or obs[0] not in ("accepted", "rejected"):
+            if op[0] not in ("kept", "kept:validate-the-callers-claims-object", "kept:callers-claims-object-edited") or obs[0] not in ("accepted", "rejected"):
                 return vs
+            claims_judged = HIST_CLAIMS.get(op[2])
+            if op[0] != "kept":
+                claims_judged = obs[-1][1]
+                obs = obs[:-1]
             _, now, leeway = obs[-1]
-            ok, errs, open_case = rc.judge(HIST_CLAIMS[op[2]], HIST_OPTIONS[op[1]], now, leeway)
+            ok, errs, open_case = rc.judge(claims_judged, HIST_OPTIONS[op[1]], now, leeway)
             if (obs[0] == "accepted") != ok and not open_case:
                 vs.append(viol(f"a registry that is kept and used again {'accepts a claims set that does not satisfy the request' if not ok else 'rejects a claims set that satisfies the request'}",
                                f"after {list(hist)}: {op} at now={now} leeway={leeway} -> {obs[:3]}, reference: ok={ok} {sorted(errs)}"))
